@@ -663,7 +663,12 @@ def do_restart(w, fmts):
                 c15("rewrite-differs", shape, "-", "writing the re-read graph gives a different %s" % fmt, facts)
         except Exception as e:
             c15("rewrite-raised", "%s:%s" % (_exc_sig(e), shape), "-", str(e)[:200], facts)
-        # the crash: drop the live object, continue on what was read back
+        # the crash: drop the live object, continue on what was read back.  The old
+        # incarnation is kept as a ghost only to observe that later edits of the new
+        # one do not reach into it ("changes no other block": seeded change C14-9,
+        # a value table shared between the written and the re-read graph)
+        w.ghost = w.g
+        w.ghost_digest = jdigest(fa)
         w.g = g2
         w.issued = set()
         w.after_restart = True
@@ -718,6 +723,16 @@ def apply_op(w, op, conf):
         if outcome is None:
             w.stats["edits"] += 1
             w.pristine = False
+            if getattr(w, "ghost", None) is not None:
+                try:
+                    now = jdigest(hier.canon_fields(w.ghost))
+                except Exception:
+                    now = "unreadable"
+                w.stats["ghost_checks"] = w.stats.get("ghost_checks", 0) + 1
+                if now != w.ghost_digest:
+                    w.viol("C14", "other-block-changed", "op=%s:in-previous-incarnation" % op.get("kind"), "-",
+                           "an edit of the re-read graph changed a block of the graph object that had been written")
+                    w.ghost_digest = now
         else:
             w.stats["edit_skipped"] += 1
     elif kind == "name":
